@@ -15,6 +15,9 @@
 (*                        member of an array becomes "mut", an object gets  *)
 (*                        the key "mut" (no-op for scalars / absent k)     *)
 (*   <<"delall">>         remove every binding                             *)
+(*   <<"mutprops">>       write into everything reachable from the step    *)
+(*                        properties the action was given (its own copy:    *)
+(*                        no effect on anything the model can see)         *)
 (*   <<"fresh", f>>       return the object f instead of the bindings      *)
 (*   <<"retnull">>        return null (a guard rejects; an action yields   *)
 (*                        empty bindings)                                  *)
@@ -47,6 +50,7 @@ RunOps(ops, bs, em) ==
                                          ELSE IF IsObj(bs[o[2]]) THEN Put(bs, o[2], Obj(Put(bs[o[2]][2], "mut", Num(2))))
                                          ELSE bs, em)
       [] o[1] = "delall"    -> RunOps(r, EmptyFn, em)
+      [] o[1] = "mutprops"  -> RunOps(r, bs, em)
       [] o[1] = "fresh"     -> [oc |-> "ok", cls |-> "", bs |-> o[2], em |-> em, pem |-> em]
       [] o[1] = "retnull"   -> [oc |-> "null", cls |-> "", bs |-> EmptyFn, em |-> em, pem |-> em]
       [] o[1] = "throw"     -> [oc |-> "fail", cls |-> "thrown", bs |-> bs, em |-> <<>>, pem |-> em]
